@@ -71,6 +71,10 @@ def c15_suites(tier):
     return [timing.PullOffSuite(), system.RhythmSessionSuite()]
 
 
+def c10_suites(tier):
+    return [timing.ProgressSuite(), system.RandomSessionSuite(), system.WaitSuite(), system.StartStopSuite()]
+
+
 PROPS = {
     "C01": {"suites": c01_suites},
     "C02": {"suites": c02_suites},
@@ -81,6 +85,7 @@ PROPS = {
     "C07": {"suites": c07_suites},
     "C08": {"suites": c08_suites},
     "C09": {"suites": c09_suites},
+    "C10": {"suites": c10_suites},
     "C11": {"suites": c11_suites},
     "C12": {"suites": c12_suites},
     "C13": {"suites": c13_suites},
